@@ -7,6 +7,7 @@ FIX_COMMITS = [
     "3ca9c68c NeoHooke.gradient stale out buffer when mu is None",
     "56fde0e6 Form API sym=True on off-diagonal blocks of mixed fields",
     "4835bdf0 blatz_ko missing factor 1/2",
+    "abb0b49f tools.moment on 2-D fields",
     "35edf887 van_der_waals non-isochoric I2",
 ]
 CHECKS = {
@@ -116,6 +117,27 @@ CHECKS = {
                 "maximum is the running maximum, primary loading equals the (abstract) base material. Plasticity from an arbitrary admissible stored state: stress on the updated yield surface after a plastic "
                 "update (1e-9), yield condition after an elastic one, equivalent plastic strain non-decreasing, stored strain/stress are the new ones.",
         "note": "subdivision independence of real Newton solutions is outside (needs convergence); histories of length 3; Newton limited to one iteration per substep in the protocol harness.",
+    },
+    "C18": {
+        "text": "FreeVibration.evaluate / extract run for real with a contract stub in place of eigsh: proved that the matrices handed to the eigensolver are exactly (sum_i m_i K_i)[dof1][:, dof1] and "
+                "(sum_i M_i)[dof1][:, dof1] for items with symbolic modulus / density / multiplier (single item, two items, mixed container whose extra fields carry no mass), that extracted mode shapes are the "
+                "eigenvector on the free and zero on the prescribed unknowns with frequency^2 (2 pi)^2 = lambda, that rigid-body motions a + omega x X are zero-energy modes of the unconstrained body (2-D: 3, "
+                "3-D: 6 parameters) and that K rotates / M is invariant under a symbolic rigid motion of the mesh.",
+        "note": "ARPACK trusted (contract stub); 'exactly' k zero modes is a rank statement outside the claim (at least k is proved).",
+    },
+    "C19": {
+        "text": "project (linear solver = contract stub): right-hand side equals A U entry-wise for quadrature values that stem from a symbolic nodal field of tensor order 0..2, volume integral preserved; "
+                "extrapolate reproduces a multilinear symbolic nodal field at the points; topoints = mean over attached cells; Kirchhoff = P F^T and Cauchy = P F^T / det F with an abstract material and symbolic "
+                "displacements; tools.force / moment = sums of nodal force / position x force over the boundary points; tools.save hands displacements and reaction forces unchanged to (a recording stand-in "
+                "for) meshio.",
+        "note": "pyvista-backed view data outside; regularity of the projection mass matrix assumed.",
+    },
+    "C20": {
+        "text": "Narrow claim: what felupe hands to / takes from meshio is exactly what was computed. With the store modelled as the identity, Mesh.write -> mesh.read returns the same symbolic points (padded to "
+                "3-D and cut back), cells and cell type for all 11 cell types; a container read with merge=True shares one point array; Job.evaluate(filename=...) with a recording TimeSeriesWriter over every "
+                "convergence pattern of a 3-substep ramp writes points/cells once, then one frame per converged substep in order with time = 0, 1, 2, whose displacement / custom point and cell data are those of "
+                "that substep's field, and nothing after the first failure; the default 'Deformation Gradient' cell datum is the quadrature mean of F.",
+        "note": "the bytes on disk (vtk / vtu / xdmf / h5 written by meshio, h5py, VTK) are outside the claim: they cannot be encoded.",
     },
 }
 NOT_APPLICABLE = {}
